@@ -1,4 +1,5 @@
 import DL.Model.CFRules
+import DL.Lemmas.CFSound7
 
 /-!
 # C10 — no-unreachable never flags a statement that can execute
@@ -47,6 +48,27 @@ theorem flagHere_sound (info : Info) (s : Stmt) (p : Nat) (h : p ∈ flagHere in
     | none => rw [hi] at h2; cases h2
     | some m => rw [hi] at h2; exact ⟨m, rfl, h2⟩
   · rw [if_neg hc] at h; cases h
+
+/-- **C10 on the fragment `inF`** (PARTIAL: the full statement above quantifies over all programs).
+Fragment: scripts whose statements are expression/declaration statements without nested functions, blocks, `if`/`else`,
+`while`, `do-while`, `for`, `for-in/of`, unlabelled `break`/`continue`, `return`, `throw`, nested to any depth, with
+pairwise distinct statement positions.  For every such script, every statement reported by `no-unreachable` is
+unreachable in the reference semantics.  Missing from the fragment: `switch`, `try`, labels, nested functions. -/
+theorem C10_partial (ss : List Stmt) (hf : (stmtsOfList ss).inF = true) (hnd : (stmtsOfList ss).positions.Nodup) (p : Nat)
+    (hp : p ∈ Program.flagged { isModule := false, items := ss.map .stmt }
+      (analyze { isModule := false, items := ss.map .stmt })) :
+    Program.reachable { isModule := false, items := ss.map .stmt } p = false :=
+  script_flagged_unreachable ss hf hnd p hp
+
+/-- non-vacuity: `while (true) { if (x) { return; } }  foo();` — in the fragment, positions distinct, and `foo()` IS
+flagged (so the hypothesis of `C10_partial` is met by a real flagged statement) -/
+example :
+    let ss : List Stmt := [.whileS 0 (.cons (.expr .other .nil) .nil) true
+        (.block 13 (.cons (.ifS 15 (.cons (.expr (.ident "x") .nil) .nil) (.block 22 (.cons (.ret 24 .nil) .nil)) none) .nil)),
+      .simple 36 .exprStmt (.cons (.expr .other .nil) .nil)]
+    (stmtsOfList ss).inF = true ∧ (stmtsOfList ss).positions.Nodup ∧
+    Program.flagged { isModule := false, items := ss.map .stmt } (analyze { isModule := false, items := ss.map .stmt }) = [36] := by
+  decide
 
 /-! ## regression examples: the defects found and repaired in /repo, decided on the model -/
 -- `do { if (x) continue; return 1; } while (c); foo();`  (F7): `foo()` at 50 is not flagged
